@@ -1,17 +1,25 @@
 package props
 
 import (
+	"bytes"
+	"encoding/json"
 	"fmt"
+	"os"
+	"os/exec"
+	"path/filepath"
 	"sort"
 	"strings"
 	"sync"
 	"sync/atomic"
+	"text/scanner"
+	"unicode"
 
 	"github.com/alecthomas/participle/v2"
 	"github.com/alecthomas/participle/v2/ebnf"
 	"github.com/alecthomas/participle/v2/lexer"
 
 	"verifharness/gram"
+	"verifharness/lexgen"
 	"verifharness/mon"
 )
 
@@ -116,6 +124,208 @@ func heredocInput(r *mon.RNG) string {
 	return sb.String()
 }
 
+// Generated lexers in C09: a push/pop definition and the stateful profile's
+// rules (upper- and lower-case elided names) are run through `participle gen
+// lexer` at check time and compiled into the child. Back-reference rules are
+// outside the generator's documented class (README, "Known limitations").
+const (
+	c09GenInterp = 9001
+	c09GenP2     = 9002
+	c09GenP1     = 9003
+)
+
+func c09GenRules(idx int) lexer.Rules {
+	switch idx {
+	case c09GenInterp: // push/pop states and a lexer-elided rule; no back-references (the generator does not support them)
+		return lexer.Rules{
+			"Root": {
+				{Name: "String", Pattern: `"`, Action: lexer.Push("Str")},
+				{Name: "Ident", Pattern: `[a-z]+`},
+				{Name: "ws", Pattern: `\s+`},
+			},
+			"Str": {
+				{Name: "Escaped", Pattern: `\\.`},
+				{Name: "Open", Pattern: `\$\{`, Action: lexer.Push("Expr")},
+				{Name: "Char", Pattern: `[^"$\\]+`},
+				{Name: "Dollar", Pattern: `\$`},
+				{Name: "End", Pattern: `"`, Action: lexer.Pop()},
+			},
+			"Expr": {
+				{Name: "Close", Pattern: `\}`, Action: lexer.Pop()},
+				lexer.Include("Root"),
+			},
+		}
+	}
+	var rs []lexer.Rule
+	for _, sr := range gram.P1Rules(idx == c09GenP2) {
+		rs = append(rs, lexer.Rule{Name: sr.Name, Pattern: sr.Pattern})
+	}
+	return lexer.Rules{"Root": rs}
+}
+
+func interpInput(r *mon.RNG) string {
+	var sb strings.Builder
+	for i := r.Range(1, 10); i > 0; i-- {
+		sb.WriteString(r.Pick(`"`, `"`, "${", "}", "ab", " ", "\n", "\"", "$", "x y", "\n", `"a${b "c"}d"`, "é"))
+	}
+	return sb.String()
+}
+
+// c09EmitGenLexers generates and adds the lexers to the program in dir.
+func c09EmitGenLexers(dir string) error {
+	env := append(os.Environ(), "GOFLAGS=-mod=mod", "GOPROXY=off", "GOSUMDB=off", "GOTOOLCHAIN=local")
+	tool := filepath.Join(dir, "participle-gen")
+	cmd := exec.Command("go", "build", "-o", tool, ".")
+	cmd.Dir = gram.RepoDir() + "/cmd/participle"
+	cmd.Env = env
+	if out, err := cmd.CombinedOutput(); err != nil {
+		return fmt.Errorf("building cmd/participle failed: %v\n%s", err, out)
+	}
+	defer os.Remove(tool)
+	var imports bytes.Buffer
+	imports.WriteString("package main\n\nimport (\n")
+	for _, idx := range []int{c09GenInterp, c09GenP2, c09GenP1} {
+		def, err := lexer.New(c09GenRules(idx))
+		if err != nil {
+			return fmt.Errorf("C09 definition %d does not build: %v", idx, err)
+		}
+		js, err := json.Marshal(def)
+		if err != nil {
+			return err
+		}
+		pkg := fmt.Sprintf("c09lex%d", idx)
+		gen := exec.Command(tool, "gen", "lexer", "--name", "Gen", pkg)
+		gen.Stdin = bytes.NewReader(js)
+		var stdout, stderr bytes.Buffer
+		gen.Stdout, gen.Stderr = &stdout, &stderr
+		if err := gen.Run(); err != nil {
+			return fmt.Errorf("`participle gen lexer` failed on C09 definition %d: %v: %s", idx, err, trunc(stderr.String(), 600))
+		}
+		os.MkdirAll(filepath.Join(dir, pkg), 0o755)
+		os.WriteFile(filepath.Join(dir, pkg, "lexer.go"), stdout.Bytes(), 0o644)
+		os.WriteFile(filepath.Join(dir, pkg, "zz.go"), []byte(fmt.Sprintf("package %s\n\nimport \"verifharness/lexgen\"\n\nfunc init() { lexgen.RegGenerated(%d, GenLexer) }\n", pkg, idx)), 0o644)
+		fmt.Fprintf(&imports, "\t_ \"genprog/%s\"\n", pkg)
+	}
+	imports.WriteString(")\n")
+	return os.WriteFile(filepath.Join(dir, "c09lexers.go"), imports.Bytes(), 0o644)
+}
+
+// namedCanon renders a token stream with type names, so streams of a runtime
+// and a generated definition of the same rules can be compared.
+func namedCanon(sym map[string]lexer.TokenType, ts []lexer.Token, err error) string {
+	names := map[lexer.TokenType]string{}
+	for n, t := range sym {
+		names[t] = n
+	}
+	var sb strings.Builder
+	for _, t := range ts {
+		fmt.Fprintf(&sb, "%s:%q@%d:%d:%d ", names[t.Type], t.Value, t.Pos.Offset, t.Pos.Line, t.Pos.Column)
+	}
+	if err != nil {
+		// generated and runtime lexers word their errors differently; the position is what they share
+		if le, ok := err.(interface{ Position() lexer.Position }); ok {
+			p := le.Position()
+			fmt.Fprintf(&sb, "| error at %d:%d:%d", p.Offset, p.Line, p.Column)
+		} else {
+			sb.WriteString("| " + err.Error())
+		}
+	}
+	return sb.String()
+}
+
+// lexVia lexes in through one of the definition's three entry points.
+func lexVia(def lexer.Definition, which int, in string) (string, bool) {
+	var got string
+	pn, pv, _ := mon.Guard(func() {
+		var lx lexer.Lexer
+		var err error
+		switch {
+		case which%3 == 1:
+			if sd, ok := def.(lexer.StringDefinition); ok {
+				lx, err = sd.LexString("h", in)
+				break
+			}
+			fallthrough
+		case which%3 == 2:
+			if bd, ok := def.(lexer.BytesDefinition); ok {
+				lx, err = bd.LexBytes("h", []byte(in))
+				break
+			}
+			fallthrough
+		default:
+			lx, err = def.Lex("h", strings.NewReader(in))
+		}
+		if err != nil {
+			got = "| " + err.Error()
+			return
+		}
+		ts, err := lexer.ConsumeAll(lx)
+		got = namedCanon(def.Symbols(), ts, err)
+	})
+	if pn {
+		return "PANIC " + pv, true
+	}
+	return got, false
+}
+
+// c09Isolated asks a fresh process what the generated definition idx answers
+// for in when nothing else has ever used it: the "fresh instance used in
+// isolation" of the statement for an object that exists once per process.
+func c09Isolated(c *mon.Child, idx, which int, in string) (string, error) {
+	f, err := os.CreateTemp("", "c09iso")
+	if err != nil {
+		return "", err
+	}
+	defer os.Remove(f.Name())
+	defer os.Remove(f.Name() + ".out")
+	js, _ := json.Marshal(map[string]interface{}{"idx": idx, "which": which, "in": in})
+	f.Write(js)
+	f.Close()
+	cmd := exec.Command(os.Args[0], "child", "C09", c.Tier, fmt.Sprint(c.Seed), fmt.Sprint(c.Batch), fmt.Sprint(c.NBatch), f.Name()+".res")
+	cmd.Env = append(os.Environ(), "VERIF_C09_ISO="+f.Name())
+	out, err := cmd.CombinedOutput()
+	os.Remove(f.Name() + ".res")
+	os.Remove(f.Name() + ".res.journal")
+	if err != nil {
+		return "", fmt.Errorf("isolated process failed: %v: %s", err, trunc(string(out), 300))
+	}
+	b, err := os.ReadFile(f.Name() + ".out")
+	return string(b), err
+}
+
+func c09IsoMain(path string) {
+	b, err := os.ReadFile(path)
+	if err != nil {
+		os.Exit(2)
+	}
+	var q struct {
+		Idx, Which int
+		In         string
+	}
+	if json.Unmarshal(b, &q) != nil {
+		os.Exit(2)
+	}
+	def := lexgen.Generated[q.Idx]
+	if def == nil {
+		os.Exit(2)
+	}
+	got, _ := lexVia(def, q.Which, q.In)
+	os.WriteFile(path+".out", []byte(got), 0o644)
+}
+
+func p1Input(r *mon.RNG) string {
+	terms := gram.Terminals(gram.ProfStateful)
+	var toks []string
+	for i := r.Range(0, 14); i > 0; i-- {
+		toks = append(toks, terms[r.Intn(len(terms))].Text)
+	}
+	s := gram.Render(gram.ProfStateful, toks, r.Intn(6), r)
+	if r.Intn(5) == 0 {
+		s += r.Pick("@", "é", "$ x", "\x00")
+	}
+	return s
+}
+
 type c09Interval struct {
 	obj        string
 	g          int
@@ -123,6 +333,10 @@ type c09Interval struct {
 }
 
 func c09Child(c *mon.Child) {
+	if f := os.Getenv("VERIF_C09_ISO"); f != "" {
+		c09IsoMain(f)
+		return
+	}
 	goroutines := c.N(16, 64)
 	rounds := c.N(30, 300)
 	opsPerG := c.N(30, 40)
@@ -173,6 +387,16 @@ func c09Child(c *mon.Child) {
 							return b.ParseString("f", text)
 						case 1:
 							return b.ParseBytes("f", []byte(text))
+						case 3:
+							lx, err := b.Lexer().Lex("f", strings.NewReader(text))
+							if err != nil {
+								return nil, err
+							}
+							pl, err := lexer.Upgrade(lx, elidedTypes(b.Lexer(), gp.elided)...)
+							if err != nil {
+								return nil, err
+							}
+							return b.ParseFromLexer(pl)
 						default:
 							return b.Parse("f", strings.NewReader(text))
 						}
@@ -180,7 +404,7 @@ func c09Child(c *mon.Child) {
 					return canonResult(nil, nil, &rr)
 				}
 			}
-			for which, nm := range []string{"ParseString", "ParseBytes", "Parse"} {
+			for which, nm := range []string{"ParseString", "ParseBytes", "Parse", "ParseFromLexer"} {
 				if (ii+which)%2 == 0 {
 					ops = append(ops, c09Op{obj: obj, name: nm, run: mkParse(shared, which), want: mkParse(fresh, which)()})
 				}
@@ -229,6 +453,28 @@ func c09Child(c *mon.Child) {
 			ops = append(ops, c09Op{obj: "example:" + ex.Name, name: "ParseString", run: f, want: f()})
 		}
 	}
+	// (4) a text/scanner definition configured with its own identifier rule, next to the default one
+	// (defined last: every expectation above was computed before it was ever used)
+	mkCfg := func() lexer.Definition {
+		return lexer.NewTextScannerLexer(func(s *scanner.Scanner) {
+			s.IsIdentRune = func(ch rune, i int) bool {
+				return ch == '.' || ch == '_' || unicode.IsLetter(ch) || (i > 0 && unicode.IsDigit(ch))
+			}
+			s.Mode &^= scanner.ScanFloats
+		})
+	}
+	cfgInputs := []string{"os.Args x.y z", "a.b.c 1.5 d", "", "x . y"}
+	for _, in := range cfgInputs {
+		in := in
+		w, _ := lexVia(lexer.TextScannerLexer, 0, in)
+		ops = append(ops, c09Op{obj: "default-text-scanner-definition", name: "Lex", run: func() string { s, _ := lexVia(lexer.TextScannerLexer, 0, in); return s }, want: w})
+	}
+	sharedCfg := mkCfg()
+	for _, in := range cfgInputs {
+		in := in
+		w, _ := lexVia(mkCfg(), 0, in)
+		ops = append(ops, c09Op{obj: "configured-text-scanner-definition", name: "Lex", run: func() string { s, _ := lexVia(sharedCfg, 0, in); return s }, want: w})
+	}
 	c.FeatureN("operations_defined", int64(len(ops)))
 	c.FeatureN("shared_generated_parsers", int64(nGram))
 
@@ -254,7 +500,10 @@ func c09Child(c *mon.Child) {
 		hr := c.RNG("heredoc", round)
 		type hcase struct {
 			in, want string
-			def      *lexer.StatefulDefinition
+			def      lexer.Definition
+			obj      string
+			gen      int // index of the generated definition, 0 for runtime definitions
+			which    int
 		}
 		var hcases []hcase
 		for i := 0; i < 12; i++ {
@@ -263,7 +512,7 @@ func c09Child(c *mon.Child) {
 				in += "x <<<\nbody\n" // a back-reference to a group the entering rule did not capture: an error, every time
 			}
 			lx, _ := freshDef.LexString("h", in)
-			hcases = append(hcases, hcase{in, toksCanon(lexer.ConsumeAll(lx)), sharedDef})
+			hcases = append(hcases, hcase{in: in, want: toksCanon(lexer.ConsumeAll(lx)), def: sharedDef, obj: "backref-definition"})
 		}
 		// a second shared definition whose back-reference is \0; every expectation comes from its own fresh definition
 		sharedQ, errq := lexer.New(quoteRules())
@@ -276,10 +525,38 @@ func c09Child(c *mon.Child) {
 			in := quoteInput(hr)
 			fq, _ := lexer.New(quoteRules())
 			lx, _ := fq.LexString("h", in)
-			hcases = append(hcases, hcase{in, toksCanon(lexer.ConsumeAll(lx)), sharedQ})
+			hcases = append(hcases, hcase{in: in, want: toksCanon(lexer.ConsumeAll(lx)), def: sharedQ, obj: "backref-definition"})
+		}
+		// generated definitions (one instance per process): new delimiters every round keep their package-level
+		// caches being written under contention; the expectation is a fresh runtime definition of the same rules
+		if len(lexgen.Generated) > 0 && (c.Tier != "thorough" || round%3 == 0) {
+			for i := 0; i < 18; i++ {
+				idx := []int{c09GenInterp, c09GenP2, c09GenP1}[i%3]
+				gdef := lexgen.Generated[idx]
+				if gdef == nil {
+					continue
+				}
+				var in string
+				if idx == c09GenInterp {
+					in = interpInput(hr)
+				} else {
+					in = p1Input(hr)
+				}
+				fresh, err := lexer.New(c09GenRules(idx))
+				if err != nil {
+					continue
+				}
+				want, _ := lexVia(fresh, i/3, in)
+				hcases = append(hcases, hcase{in: in, want: want, def: gdef, obj: fmt.Sprintf("generated-definition-%d", idx), gen: idx, which: i / 3})
+			}
+		}
+		type genMismatch struct {
+			hc  hcase
+			got string
 		}
 		type gres struct {
 			bad       []string
+			genBad    []genMismatch
 			intervals []c09Interval
 			n         int
 		}
@@ -299,15 +576,23 @@ func c09Child(c *mon.Child) {
 					hc := hcases[(i+g)%len(hcases)]
 					t0 := atomic.AddInt64(&clock, 1)
 					var got string
-					if pn, pv, _ := mon.Guard(func() {
-						lx, _ := hc.def.LexString("h", hc.in)
+					if hc.gen != 0 {
+						got, _ = lexVia(hc.def, hc.which, hc.in)
+					} else if pn, pv, _ := mon.Guard(func() {
+						lx, _ := hc.def.(lexer.StringDefinition).LexString("h", hc.in)
 						got = toksCanon(lexer.ConsumeAll(lx))
 					}); pn {
 						got = "PANIC " + pv
 					}
 					t1 := atomic.AddInt64(&clock, 1)
-					res.intervals = append(res.intervals, c09Interval{"backref-definition", g, t0, t1})
+					res.intervals = append(res.intervals, c09Interval{hc.obj, g, t0, t1})
 					res.n++
+					if hc.gen != 0 {
+						if got != hc.want {
+							res.genBad = append(res.genBad, genMismatch{hc, got})
+						}
+						continue
+					}
 					if got != hc.want {
 						res.bad = append(res.bad, fmt.Sprintf("shared back-reference definition, LexString(%q): concurrent %s, isolated %s", hc.in, trunc(got, 300), trunc(hc.want, 300)))
 					}
@@ -335,8 +620,41 @@ func c09Child(c *mon.Child) {
 			}
 			intervalsAll = append(intervalsAll, results[g].intervals...)
 		}
+		// a generated definition that answered differently from the runtime definition: ask a fresh process
+		// what that generated definition says in isolation. Only a difference from THAT is C09's business.
+		seenGen := map[string]bool{}
+		for g := range results {
+			for _, gm := range results[g].genBad {
+				k := fmt.Sprint(gm.hc.gen, gm.hc.which, gm.hc.in, gm.got)
+				if seenGen[k] || len(seenGen) >= 6 {
+					continue
+				}
+				seenGen[k] = true
+				iso, err := c09Isolated(c, gm.hc.gen, gm.hc.which, gm.hc.in)
+				switch {
+				case err != nil:
+					c.Inconclusive("isolated process for a generated-lexer mismatch failed: " + err.Error())
+				case iso == gm.got:
+					c.Feature("generated_definition_differs_from_runtime_also_in_isolation_(C05_matter,_not_judged_here)")
+					c.Sample(map[string]interface{}{"generated_vs_runtime": gm.hc.in, "generated": trunc(gm.got, 400), "runtime": trunc(gm.hc.want, 400), "definition": gm.hc.gen})
+				default:
+					mismatches++
+					c.Violation("", key, fmt.Sprintf("generated definition %d (%s), input %q: under concurrent/repeated use it returned %s; a fresh process lexing only this input returns %s", gm.hc.gen, gm.hc.obj, gm.hc.in, trunc(gm.got, 300), trunc(iso, 300)), map[string]interface{}{"round": round})
+				}
+			}
+		}
 		for _, hc := range hcases {
 			cacheKeysUnderOverlap[hc.in] = true
+			if hc.gen != 0 {
+				c.Feature("generated_definition_inputs_lexed_concurrently")
+				// history independence of the generated definition, sequentially
+				if got, _ := lexVia(hc.def, hc.which+1, hc.in); got != hc.want {
+					if iso, err := c09Isolated(c, hc.gen, hc.which+1, hc.in); err == nil && iso != got {
+						c.Violation("", key, fmt.Sprintf("generated definition %d, input %q: after earlier use it returns %s; a fresh process returns %s", hc.gen, hc.in, trunc(got, 300), trunc(iso, 300)), nil)
+					}
+				}
+				c.Eval(1)
+			}
 		}
 		// history independence, sequentially: after all that, the shared instances still answer like fresh ones
 		for i := 0; i < 20; i++ {
@@ -387,16 +705,30 @@ func c09CountOverlaps(c *mon.Child, iv []c09Interval) {
 func init() {
 	Register(&mon.Spec{
 		ID:          "C09",
-		Rule:        "case = round: 16 (thorough 64) goroutines released by a barrier first lex 12 heredoc inputs with many distinct delimiters on one fresh back-reference definition (every compiled-pattern cache key is first used under contention), then each performs 30-40 randomly ordered ParseString/ParseBytes/Parse/Lex/String calls on shared generated-grammar parsers, ebnf.ParseString on the package-level EBNF parser, and ParseString on the example grammars' package-level parsers. Every result (normalised AST incl. positions + error text, or token list) is compared with the same call on a fresh instance built and used in isolation before the concurrent phase; after each round 20 sequential calls re-check history independence. The binary is built with -race; every 'WARNING: DATA RACE' block in the GORACE logs is a violation. Non-trivial: an object on which operations of different goroutines overlapped in time (stamped from one atomic counter); distinct by object.",
+		Rule:        "case = round: 16 (thorough 64) goroutines released by a barrier first lex 12 heredoc inputs with many distinct delimiters on one fresh back-reference definition (every compiled-pattern cache key is first used under contention), then each performs 30-40 randomly ordered ParseString/ParseBytes/Parse/Lex/String calls on shared generated-grammar parsers, ebnf.ParseString on the package-level EBNF parser, and ParseString on the example grammars' package-level parsers. The same goroutines lex fresh inputs on three lexer definitions emitted by `participle gen lexer` at check time (push/pop states with lexer-elided rules; the stateful profile with upper- and lower-case elided names; one instance per process), expectation = a fresh runtime definition of the same rules compared by symbol name and error position, and a disagreement is only reported when a fresh process lexing just that input with the generated definition answers differently from the concurrent call; ParseFromLexer over Upgrade(Lexer().Lex()) is among the parser operations; a text/scanner definition configured with its own IsIdentRune is used next to the default one. Every result (normalised AST incl. positions + error text, or token list) is compared with the same call on a fresh instance built and used in isolation before the concurrent phase; after each round 20 sequential calls re-check history independence. The binary is built with -race; every 'WARNING: DATA RACE' block in the GORACE logs is a violation. Non-trivial: an object on which operations of different goroutines overlapped in time (stamped from one atomic counter); distinct by object.",
 		Assumptions: []string{"race reports can only appear if a race exists; absence of reports is evidence for the interleavings executed only", "for package-level parsers (ebnf, examples) no fresh instance can be made: the expectation is the parser's own first isolated answer", "monitor tables are per goroutine and merged after wg.Wait()"},
 		Batches:     func(t string) int { return pick(t, 2, 5) },
 		Floor:       func(t string) int { return pick(t, 10, 20) },
 		TimeoutSec:  func(t string) int { return pick(t, 1200, 3600) },
 		Race:        true,
 		Prepare: gramPrepareEx("C09", func(t string) int { return pick(t, 30, 70) }, c09Opts, nil, true, func(dir string) error {
-			_, err := gram.EmitExamples(dir, c06Examples)
-			return err
+			if _, err := gram.EmitExamples(dir, c06Examples); err != nil {
+				return err
+			}
+			return c09EmitGenLexers(dir)
 		}),
 		Child: c09Child,
 	})
+}
+
+// elidedTypes maps elided type names to the definition's token types.
+func elidedTypes(def lexer.Definition, names []string) []lexer.TokenType {
+	sym := def.Symbols()
+	var out []lexer.TokenType
+	for _, n := range names {
+		if t, ok := sym[n]; ok {
+			out = append(out, t)
+		}
+	}
+	return out
 }
